@@ -32,6 +32,11 @@ CASES = {
         logger.debug("received datagram from an unknown source")
         return
     if True:''')], ["C06", "C05", "C07"]),
+ "debug_field_write_only": ("api/__init__.py", [('        logger.debug("sending a control packet")\n        self._writer.write(unhexlify(signed_packet))\n        response = await self._reader.read(1024)\n        return SwitcherBaseResponse(response)\n\n    async def set_auto_shutdown',
+                                                 '        logger.debug("sending a control packet")\n        self._writer.write(unhexlify(signed_packet))\n        response = await self._reader.read(1024)\n        self._last_raw_reply_for_debugging = response\n        return SwitcherBaseResponse(response)\n\n    async def set_auto_shutdown')], ["C03", "C02"]),
+ "lambda_wiring": ("bridge.py", [("                partial(_parse_device_from_datagram, self._on_device)", "                lambda datagram: _parse_device_from_datagram(self._on_device, datagram)")], ["C17", "C07"]),
+ "module_constant_list": ("api/__init__.py", [("SWITCHER_TCP_PORT_TYPE2 = 10000\n", "SWITCHER_TCP_PORT_TYPE2 = 10000\nKNOWN_TCP_PORTS = [9957, 10000]\n")], ["C03", "C19"]),
+ "warning_reworded": ("bridge.py", [('warn("discovered an unknown switcher device")', 'warn("ignoring a broadcast of an unknown Switcher device model")')], ["C06"]),
 }
 names = sys.argv[1:] or list(CASES)
 bad = 0
